@@ -130,13 +130,22 @@ theorem itoa_isDigit (n : Nat) : ∀ c ∈ Style.itoa n, c.isDigit = true := by
   intro c hc
   exact Nat.isDigit_of_mem_toDigits (by decide) (by decide) hc
 
+/-- A number of seconds that fits a duration is converted without wrap-around. -/
+theorem wrap64_seconds {t : Int} (h0 : 0 ≤ t) (h1 : t ≤ maxSeconds) :
+    wrap64 (t * 1000000000) = t * 1000000000 := by
+  unfold wrap64
+  unfold maxSeconds at h1
+  omega
+
 /-- Inversion of a successful `postprocess`. -/
 theorem postprocess_ok_inv {r : Raw} {p : Parsed} (h : postprocess r = .ok p) :
     ∃ cp ce ch cc, hexToAnsi r.primary = some cp ∧ hexToAnsi r.error = some ce ∧
       hexToAnsi r.highlight = some ch ∧ hexToAnsi r.code = some cc ∧
-      r.hook ≠ [] ∧ 0 ≤ r.context ∧ 0 ≤ r.timeout ∧ 1 ≤ r.cacheSize ∧
+      r.hook ≠ [] ∧ 0 ≤ r.context ∧ 0 ≤ r.timeout ∧ 1 ≤ r.cacheSize ∧ r.timeout ≤ maxSeconds ∧
+      r.context ≤ maxPreload ∧
       p = { hook := r.hook, colors := ⟨cp, ce, ch, cc⟩, context := r.context,
-            timeoutSeconds := r.timeout, cacheSize := r.cacheSize } := by
+            timeoutSeconds := r.timeout, cacheSize := r.cacheSize,
+            timeoutNanos := wrap64 (r.timeout * 1000000000) } := by
   unfold postprocess at h
   split at h; · cases h
   split at h; · cases h
@@ -146,16 +155,20 @@ theorem postprocess_ok_inv {r : Raw} {p : Parsed} (h : postprocess r = .ok p) :
   split at h; · cases h
   split at h; · cases h
   split at h; · cases h
-  rename_i _ cp hp _ ce he _ ch hh _ cc hc hhook hctx hto hcs
-  refine ⟨cp, ce, ch, cc, hp, he, hh, hc, ?_, by omega, by omega, by omega, (Except.ok.inj h).symm⟩
+  split at h; · cases h
+  split at h; · cases h
+  rename_i _ cp hp _ ce he _ ch hh _ cc hc hhook hctx hpre hto hcs hmax
+  refine ⟨cp, ce, ch, cc, hp, he, hh, hc, ?_, by omega, by omega, by omega, by omega, by omega, (Except.ok.inj h).symm⟩
   intro hnil
   simp [hnil] at hhook
 
 theorem postprocess_ok_of_valid (r : Raw) {cp ce ch cc : Str}
     (hp : hexToAnsi r.primary = some cp) (he : hexToAnsi r.error = some ce)
     (hh : hexToAnsi r.highlight = some ch) (hc : hexToAnsi r.code = some cc)
-    (hhook : r.hook ≠ []) (h1 : 0 ≤ r.context) (h2 : 0 ≤ r.timeout) (h3 : 1 ≤ r.cacheSize) :
-    postprocess r = .ok (Parsed.mk r.hook ⟨cp, ce, ch, cc⟩ r.context r.timeout r.cacheSize) := by
+    (hhook : r.hook ≠ []) (h1 : 0 ≤ r.context) (h2 : 0 ≤ r.timeout) (h3 : 1 ≤ r.cacheSize)
+    (h4 : r.timeout ≤ maxSeconds) (h5 : r.context ≤ maxPreload) :
+    postprocess r = .ok (Parsed.mk r.hook ⟨cp, ce, ch, cc⟩ r.context r.timeout r.cacheSize
+      (wrap64 (r.timeout * 1000000000))) := by
   have e1 : r.hook.isEmpty = false := by
     cases hk : r.hook with
     | nil => exact absurd hk hhook
@@ -163,11 +176,13 @@ theorem postprocess_ok_of_valid (r : Raw) {cp ce ch cc : Str}
   have e2 : ¬ r.context < 0 := by omega
   have e3 : ¬ r.timeout < 0 := by omega
   have e4 : ¬ r.cacheSize < 1 := by omega
-  simp [postprocess, hp, he, hh, hc, e1, e2, e3, e4]
+  have e5 : ¬ r.timeout > maxSeconds := by omega
+  have e6 : ¬ r.context > maxPreload := by omega
+  simp [postprocess, hp, he, hh, hc, e1, e2, e3, e4, e5, e6]
 
 theorem postprocess_safe {r : Raw} {p : Parsed} (h : postprocess r = .ok p) : Safe p := by
-  obtain ⟨cp, ce, ch, cc, hp, he, hh, hc, hhook, h1, h2, h3, rfl⟩ := postprocess_ok_inv h
-  refine ⟨hhook, h3, h1, h2, ?_⟩
+  obtain ⟨cp, ce, ch, cc, hp, he, hh, hc, hhook, h1, h2, h3, h4, h5, rfl⟩ := postprocess_ok_inv h
+  refine ⟨hhook, h3, h1, h2, h5, wrap64_seconds h2 h4, ?_⟩
   intro s hs
   simp only [List.mem_cons, List.not_mem_nil, or_false] at hs
   rcases hs with rfl | rfl | rfl | rfl
@@ -183,8 +198,8 @@ theorem postprocess_error {r : Raw} {d : Diag} (h : postprocess r = .error d) :
     | .highlight => hexToAnsi r.highlight = none
     | .code => hexToAnsi r.code = none
     | .hook => r.hook = []
-    | .context => r.context < 0
-    | .timeout => r.timeout < 0
+    | .context => r.context < 0 ∨ r.context > maxPreload
+    | .timeout => r.timeout < 0 ∨ r.timeout > maxSeconds
     | .cacheSize => r.cacheSize < 1 := by
   unfold postprocess at h
   split at h
@@ -198,11 +213,15 @@ theorem postprocess_error {r : Raw} {d : Diag} (h : postprocess r = .error d) :
   split at h
   · cases h; simpa using ‹r.hook.isEmpty = true›
   split at h
-  · cases h; assumption
+  · cases h; exact Or.inl ‹_›
+  split at h
+  · cases h; exact Or.inr ‹_›
+  split at h
+  · cases h; exact Or.inl ‹_›
   split at h
   · cases h; assumption
   split at h
-  · cases h; assumption
+  · cases h; exact Or.inr ‹_›
   · cases h
 
 end Config
